@@ -255,7 +255,9 @@ for sg in req.get('sigs', []):
                 hint_scalar.setdefault(uid, sc)
 
 # --- struct requests: [uid, name, qname|null]
-for uid, name, q in req.get('structs', []):
+for ent_ in req.get('structs', []):
+    uid, name, q = ent_[0], ent_[1], ent_[2]
+    scopes = ent_[3] if len(ent_) > 3 else []
     t = None
     if uid in hint_struct:
         q = hint_struct[uid]
@@ -264,6 +266,14 @@ for uid, name, q in req.get('structs', []):
             t = gdb.lookup_type(q)
         except gdb.error:
             t = None
+    if t is None:
+        # a member typedef (iterator, value_type, ...) of a class whose method produces the value
+        for sc in scopes:
+            try:
+                t = gdb.lookup_type(sc + '::' + name)
+                break
+            except gdb.error:
+                t = None
     if t is None:
         cs = []
         for cq in candidates(name, None):
